@@ -423,6 +423,15 @@ fn histories<B: BitmapSlice>(v: &Verdicts, what: &str, placed: &Placed, vs: &Vol
         HistOp::Mem(Op::Write { off: 0, len: n, mis: 0 }),
         HistOp::ResetRange(p, n.saturating_sub(2 * p).max(1)),
     ];
+    let mut alpha = alpha;
+    if bm.len() > 64 {
+        // bitmaps of more than one 64-page word: writes and resets that straddle the word boundary
+        let w = 64 * p;
+        alpha.push(HistOp::Mem(Op::Write { off: w - 2, len: 4, mis: 0 }));
+        alpha.push(HistOp::Mem(Op::WriteObj { ty: Ty::U16, off: w - 1 }));
+        alpha.push(HistOp::Mem(Op::Write { off: w + p, len: 1, mis: 0 }));
+        alpha.push(HistOp::ResetRange(w - 1, 2));
+    }
     let npages = bm.len();
     let mut t = 0u64;
     let na = alpha.len();
@@ -438,12 +447,54 @@ fn histories<B: BitmapSlice>(v: &Verdicts, what: &str, placed: &Placed, vs: &Vol
                 for (step, h) in seq.iter().copied().enumerate() {
                     t += 1;
                     let tag = (i * 31 + j * 7 + k + step * 3) as u8 | 1;
-                    match h {
-                        HistOp::Reset => bm.reset(),
-                        HistOp::Harvest => {
-                            let _ = bm.get_and_reset();
+                    // the bitmap operations themselves: exactly the named pages become clean and a
+                    // fetch-and-clear reports exactly what was dirty (precision oracle only)
+                    if !matches!(h, HistOp::Mem(_)) {
+                        let before = dirty_pages(bm);
+                        let (cleared, reported): (std::collections::BTreeSet<usize>, Option<std::collections::BTreeSet<usize>>) = match h {
+                            HistOp::Reset => {
+                                bm.reset();
+                                (before.clone(), None)
+                            }
+                            HistOp::Harvest => {
+                                let words = bm.get_and_reset();
+                                let mut rep = std::collections::BTreeSet::new();
+                                for (w, x) in words.iter().enumerate() {
+                                    for b in 0..64 {
+                                        if x & (1u64 << b) != 0 {
+                                            rep.insert(w * 64 + b);
+                                        }
+                                    }
+                                }
+                                (before.clone(), Some(rep))
+                            }
+                            HistOp::ResetRange(x, l) => {
+                                bm.reset_addr_range(*x, *l);
+                                let last = (x + l.saturating_sub(1)) / p;
+                                ((x / p..=last).filter(|q| *l > 0 && before.contains(q)).collect(), None)
+                            }
+                            HistOp::Mem(_) => unreachable!(),
+                        };
+                        if v.which == "C16" {
+                            let after = dirty_pages(bm);
+                            let want: std::collections::BTreeSet<usize> = before.difference(&cleared).cloned().collect();
+                            let bad = if after != want {
+                                Some(format!("dirty pages before {:?}, after {:?}, expected {:?}", before, after, want))
+                            } else if reported.as_ref().map_or(false, |r| *r != before) {
+                                Some(format!("dirty pages before {:?}, fetch-and-clear reported {:?}", before, reported))
+                            } else {
+                                None
+                            };
+                            if let Some(d) = bad {
+                                let key = format!("{}/{}/history/bitmap-operation-imprecise", v.which, what);
+                                let rp = if v.ctx.has_failed(&key) { serde_json::Value::Null } else { json!({"root": what, "len": n, "page_size": p, "history": seq.iter().map(|h| format!("{:?}", h)).collect::<Vec<_>>(), "failing_step": step}) };
+                                v.ctx.fail(&key, &format!("history {:?} step {} ({:?}): {}", seq, step, h, d), rp);
+                            }
                         }
-                        HistOp::ResetRange(x, l) => bm.reset_addr_range(*x, *l),
+                        continue;
+                    }
+                    match h {
+                        HistOp::Reset | HistOp::Harvest | HistOp::ResetRange(..) => {}
                         HistOp::Mem(op) => {
                             let dirty_before = dirty_pages(bm);
                             let exp = model_op(&state, placed.ptr() as usize, op, tag);
@@ -484,6 +535,16 @@ fn link_kind(l: Link) -> usize {
         Link::ArrToSlice(..) => 6,
         Link::ArrRefAt(..) => 7,
     }
+}
+
+/// Containers whose bitmap spans more than one 64-page word: histories only.
+fn part_large(v: &Verdicts, n: usize, p: usize, depth: usize) -> u64 {
+    let pz = NonZeroUsize::new(p).unwrap();
+    let placed = Placed::new(n, 0, false);
+    let bm = AtomicBitmap::new(n, pz);
+    // SAFETY: placed outlives vs
+    let vs = unsafe { VolatileSlice::with_bitmap(placed.ptr(), n, bm.slice_at(0), None) };
+    histories(v, "slice/RefSlice-two-bitmap-words", &placed, &vs, &bm, p, depth)
 }
 
 fn part_a(v: &Verdicts, n: usize, p: usize, thorough: bool) -> u64 {
@@ -910,7 +971,7 @@ fn migration(ctx: &Ctx) -> (u64, u64) {
 pub fn run(prop: &'static str, tier: Tier, replay: Option<String>) -> i32 {
     let ctx = crate::new_ctx(prop, tier, "model_checking", &replay);
     let thorough = tier.thorough();
-    ctx.set_rule("E1, one enumeration judged by two oracles. (A) tracked VolatileSlices (plain RefSlice, RefSlice at a base offset, nested BaseSlice, ArcSlice, Option Some/None) of 16 and 24 bytes x page sizes {1,2,3,4,5,8,16,N+5} x every derivation chain of up to 2 (thorough 3) links (subslice, offset, split_at either half, get_slice, get_ref->to_slice, get_array_ref->to_slice / ref_at->to_slice; arguments from the boundary alphabet of the page size) x every write and read path of the container alphabet through the derived accessor x start bitmaps clean / checkerboard / all dirty; (B) one mmap region and (C) guest memory with two adjacent regions and a hole, page sizes as above: every route of the byte-access interface at every (address, length), descriptor reads through the real raw-fd adapter over interposed read(2) (full, short, failing after touching a prefix, EINTR), accessors derived through the region/memory API, and write;reset;write histories; all histories of 3 (thorough 5) steps over an alphabet of 14 memory / reset / harvest / reset-range operations with memory and bitmap carried over. C05: every byte that differs from the pre-operation snapshot must be dirty in the owning region's bitmap at the region's own offset; plus (E3) all interleavings of one tracked write (9 write paths) with one fetch-and-clear consumer that copies the reported pages - after a final pass the consumer's image must equal guest memory. C16: dirty-after == dirty-before U pages overlapping the bytes the reference model says were written (a failing descriptor read may additionally mark its whole target). State = (memory contents, dirty set); every transition runs on the real objects.");
+    ctx.set_rule("E1, one enumeration judged by two oracles. (A) tracked VolatileSlices (plain RefSlice, RefSlice at a base offset, nested BaseSlice, ArcSlice, Option Some/None) of 16 and 24 bytes x page sizes {1,2,3,4,5,8,16,N+5} x every derivation chain of up to 2 (thorough 3) links (subslice, offset, split_at either half, get_slice, get_ref->to_slice, get_array_ref->to_slice / ref_at->to_slice; arguments from the boundary alphabet of the page size) x every write and read path of the container alphabet through the derived accessor x start bitmaps clean / checkerboard / all dirty; (B) one mmap region and (C) guest memory with two adjacent regions and a hole, page sizes as above: every route of the byte-access interface at every (address, length), descriptor reads through the real raw-fd adapter over interposed read(2) (full, short, failing after touching a prefix, EINTR), accessors derived through the region/memory API, and write;reset;write histories; all histories of 3 (thorough 5) steps over an alphabet of 14 memory / reset / harvest / reset-range operations with memory and bitmap carried over (also on containers of 136 / 200 / 528 bytes whose bitmaps span two or three 64-page words, with writes and resets straddling the word boundary). C05: every byte that differs from the pre-operation snapshot must be dirty in the owning region's bitmap at the region's own offset; plus (E3) all interleavings of one tracked write (9 write paths) with one fetch-and-clear consumer that copies the reported pages - after a final pass the consumer's image must equal guest memory. C16: dirty-after == dirty-before U pages overlapping the bytes the reference model says were written, and in the histories a reset / reset-range / fetch-and-clear leaves exactly the other pages dirty and reports exactly what was dirty (a failing descriptor read may additionally mark its whole target). State = (memory contents, dirty set); every transition runs on the real objects.");
     ctx.assume("raw-pointer writes are exempt as documented; marks through a bare BaseSlice with wrapping offsets are outside both oracles");
     if ctx.replay_of.is_some() {
         println!("replay: the enumeration is deterministic; re-running the quick tier and reporting whether the recorded key fails again");
@@ -932,6 +993,12 @@ pub fn run(prop: &'static str, tier: Tier, replay: Option<String>) -> i32 {
                     total.fetch_add(t, std::sync::atomic::Ordering::Relaxed);
                 });
             }
+        }
+        for (n, p) in [(136usize, 1usize), (200, 3), (66 * 8, 8)] {
+            s.spawn(move || {
+                let t = part_large(v, n, p, if thorough { 4 } else { 3 });
+                total.fetch_add(t, std::sync::atomic::Ordering::Relaxed);
+            });
         }
         #[cfg(not(feature = "xen"))]
         for p in [1usize, 2, 3, 4, 5, 8, 16, 29] {
